@@ -1055,6 +1055,9 @@ class Table(Vector):
 	def __abs__(self):
 		return Table(tuple(abs(col) for col in self.cols()))
 
+	def __invert__(self):
+		return Table(tuple(~col for col in self.cols()))
+
 	# Reflected forms (scalar or sequence on the left): the same column-by-column rule with the
 	# operands swapped, so that names and shape are kept exactly as for `table <op> other`.
 	def __radd__(self, other):
